@@ -119,3 +119,10 @@ package server
 //@   modifies *
 //@   ensures fullwrite == on
 //@   ensures readonly ==> old(readonly) && !on
+
+// handleCommand (C11, C19: the background work of the rpc commands copy / migrate / transfer-data / push),
+// structural contract: no variable of the command switchboard - in particular its named result err, which
+// has been returned to the rpc layer by then - is written by a goroutine it starts.
+//@ func handleCommand
+//@   prop C11
+//@   structural
